@@ -23,7 +23,7 @@ def build(rng, tier):
                 for meth in METHODS:
                     if n == 3 and rng.random() < (0.6 if tier == "quick" else 0.0) or n == 4 and rng.random() < 0.8:
                         continue
-                    by = rng.pick(["col", "col", "cols", "array", "level", "mixed"])
+                    by = rng.pick(["col", "col", "cols", "array", "level", "mixed", "series"])
                     series = by in ("array", "level") and rng.random() < 0.3
                     nv = 1 if series else rng.pick([1, 2, 2])
                     vcols = {nm: [rng.pick([NULL, -1, 0, 1, 2]) for _ in range(n)] for nm in ["v1", "v2"][:nv]}
@@ -33,7 +33,7 @@ def build(rng, tier):
                              kkinds=[rng.pick(["str", "f64", "cat"]), rng.pick(["str", "f64"])], seed=rng.randrange(10 ** 6))
                     if by in ("col", "cols", "mixed") and not series and meth != "iter" and rng.random() < 0.2:
                         c["select"], c["kkinds"][0] = "withkey", "f64"      # the selection names the key column again
-                    if by in ("col", "array", "level") and n >= 2 and rng.random() < 0.2 and c["kkinds"][0] != "cat" and not (c["kkinds"][0] == "str" and k1[0] == NULL):
+                    if by in ("col", "array", "level", "series") and n >= 2 and rng.random() < 0.2 and c["kkinds"][0] != "cat" and not (c["kkinds"][0] == "str" and k1[0] == NULL):
                         c["T"] = 2          # the facade's grouper factorizes the key chunk-wise
                     if meth.startswith("rolling_") and rng.random() < 0.7:
                         W = rng.pick([1, 2, 3])
@@ -45,7 +45,7 @@ def build(rng, tier):
 def run(tier):
     ck = CheckRun("C17", tier, rule=(
         "Series/DataFrames of up to 3 (4) rows: every key column over {Null,1,2} (exhaustive for n<=2, sampled above) x keys "
-        "given by column name / several names / array / index level / name+array mixture x index kind (default, shuffled "
+        "given by column name / several names / array / Series named like a value column / index level / name+array mixture x index kind (default, shuffled "
         "ints, duplicated labels, strings, 2-level) x 1-2 value columns with zeros/negatives/nulls x with and without [] "
         "selection (one column, a list, a list that names the key column again) x string / float / categorical (with an unused category) keys x every facade method (10 aggregations, cumsum/cummax/cummin/cumcount, rolling sum/mean/min/max with window 1..3 and min_periods None / 0..window, "
         "iteration; and the delegation of median / quantile / nth / head / tail / agg / apply / ema / masked aggregations / ngroups, each compared with the core engine's result on the selected columns).  The facade's result, the core engine's result on the selected value columns and (where the property "
